@@ -34,7 +34,71 @@ def control_facts():
     return m, ""
 
 
+INTERIOR = re.compile(r"\b(OnceLock|OnceCell|LazyLock|LazyCell|Lazy|Mutex|RwLock|RefCell|Cell|UnsafeCell|Atomic[A-Z]\w*)\b")
+
+
+def global_state_sites(files, text_of):
+    """`static` items that can change after start-up (interior mutability, `static mut`) and thread_local!/lazy_static! blocks,
+    anywhere in the given syntax trees (module level or inside a function body), test code excluded."""
+    out = []
+
+    def visit(x, where, in_test):
+        if isinstance(x, dict):
+            if x.get("cfg_test"):
+                return
+            k = x.get("k")
+            if k in ("Fn",):
+                where = x.get("name", where)
+            if k == "Static":
+                ty = x.get("ty") or ""
+                src = text_of(x)
+                mut = bool(re.match(r"^(pub(\([^)]*\))?\s+)?static\s+mut\b", src))
+                if mut or INTERIOR.search(ty):
+                    out.append((where, x.get("name"), "static mut" if mut else "static " + ty.replace(" ", ""), x.get("l")))
+            if k == "Macro" and x.get("name", "").split("::")[-1] in ("thread_local", "lazy_static"):
+                out.append((where, x["name"], x["name"] + "!", x.get("l")))
+            for v in x.values():
+                visit(v, where, in_test)
+        elif isinstance(x, list):
+            for v in x:
+                visit(v, where, in_test)
+
+    for rel, content in files.items():
+        for it in content["items"]:
+            visit(it, rel, False)
+    return out
+
+
+def global_state_rule(repo, res, rule="GLOBALSTATE"):
+    """`whether repeated inside one process`: a value kept in process-global mutable state outlives one compilation, so the second
+    compilation in the same process (another shell, another grammar) can see what the first one left there."""
+    def text_of_repo(rel):
+        return lambda n: " ".join(repo.src[rel][n["l"] - 1 : n["l"]]).strip() if n.get("l") else ""
+
+    sites = []
+    for rel, content in repo.files.items():
+        sites += [(rel,) + s for s in global_state_sites({rel: content}, text_of_repo(rel))]
+    for rel, where, name, what, line in sites:
+        res.bad(rule, f"{rule}:{where}:{name}", f"{what} in {where}: process-global mutable state survives from one compilation to the next in the same process", f"{rel}:{line}")
+    res.ok(rule, f"{rule}:scan", f"scanned {len(repo.files)} files: {len(sites)} process-global mutable items (static with interior mutability, static mut, thread_local!/lazy_static!)", "")
+    # positive control: the same scanner over tools/control/src/statics.rs must report its three constructs
+    import json, subprocess, tempfile
+    ctl = os.path.join(core.VERIF, "tools/control/src/statics.rs")
+    with tempfile.TemporaryDirectory(dir=core.WORK if os.path.isdir(core.WORK) else None) as td:
+        outp = os.path.join(td, "ctl.json")
+        r = subprocess.run([core.SRCFACTS, outp, ctl], stdout=subprocess.PIPE, stderr=subprocess.PIPE, text=True)
+        if r.returncode != 0:
+            res.undecided("CONTROL", "CONTROL:global-state", "control file did not parse: " + r.stderr[-200:])
+            return
+        data = json.load(open(outp))
+    lines = open(ctl).read().split("\n")
+    found = global_state_sites({"statics.rs": list(data.values())[0]}, lambda n: lines[n["l"] - 1].strip() if n.get("l") else "")
+    kinds = {w.split(" ")[0] + (" mut" if w == "static mut" else "") if not w.endswith("!") else w for _, _, w, _ in found}
+    res.check(len(found) >= 3, "CONTROL", "CONTROL:global-state", f"control: {len(found)} process-global items flagged {sorted(w for _, _, w, _ in found)}", ctl)
+
+
 def run(repo, res, tier):
+    global_state_rule(repo, res)
     mir = M.get_mir(tier)
     reach = mir.reachable(["main::main"])
     res.engines["M"] = {"crates": mir.crates, "functions": len(mir.fns), "reachable_from_main": len(reach)}
@@ -159,4 +223,4 @@ def run(repo, res, tier):
         res.check("env" not in cl["features"], "D", "D:clap:no-env", f"clap {cl['version']} features {cl['features']}: no `env` (arguments are never read from environment variables)", cl["dir"])
     res.floor("HASHORD", res.count("HASHORD"), 14)
     res.floor("D", res.count("D"), 8)
-    res.floor("CONTROL", res.count("CONTROL"), 3)
+    res.floor("CONTROL", res.count("CONTROL"), 4)
